@@ -172,6 +172,28 @@ static void check_cps(const unsigned *cpin, int n0, int marks)
 				}
 			}
 		}
+		/* a $...$ mark (any context, left to right, no nested marks) in a left-to-right line: everything from the
+		 * first dollar to the second keeps logical order, whatever letters it holds.  Claimed when nothing before
+		 * the first dollar can start another mark (no right-to-left letter, no backslash). */
+		if (ctx > 0) {
+			int d1 = -1, d2 = -1, clean = 1, slot[MAXC + 2];
+			for (i = 0; i < n; i++)
+				slot[ord[i]] = i;
+			for (i = 0; i < n0 && d1 < 0; i++) {
+				if (cp[i] == '$')
+					d1 = i;
+				else if (cls(cp[i]) == CL_R || cp[i] == '\\')
+					clean = 0;
+			}
+			for (i = d1 + 1; d1 >= 0 && i < n0 && d2 < 0; i++)
+				if (cp[i] == '$')
+					d2 = i;
+			if (clean && d2 > d1 + 1)
+				for (i = d1; i < d2; i++)
+					if (slot[i + 1] - slot[i] != 1)
+						BAD("c18-mark-direction", "ctx=%d the text between the dollars at %d and %d is marked left-to-right, but characters %d and %d are at visual slots %d and %d",
+							ctx, d1, d2, i, i + 1, slot[i], slot[i + 1]);
+		}
 		if (!marks) {
 			/* (2)+(3) exactly the opposite-direction runs are reversed in place */
 			ref_reorder(cp, n0, ctx, vis);
